@@ -210,23 +210,23 @@ func (ex *Exec) pureResult(st *State, fn *ssa.Function, args []Value) Value {
 	v := Value{T: rt, C: make([]*Term, len(l))}
 	name := shortName(fn.String())
 	for j, c := range l {
-		if ok && c.Kind != "sbase" {
+		if ok {
 			v.C[j] = UF(fmt.Sprintf("ext.%s.%d", name, j), c.Sort, flat...)
 		} else {
 			v.C[j] = Fresh("ext."+name, c.Sort)
 		}
 		if c.Kind == "ref" || c.Kind == "sbase" {
-			// references returned by externals: nil-ness deterministic, identity fresh
-			r := Fresh("extref."+name, IntSort)
+			// references returned by side-effect free externals (errors, compiled patterns, ...): when the
+			// arguments are scalars the result is a deterministic function of them (so is its nil-ness); it
+			// denotes an object that exists after the call
 			nw := Fresh("wm.ext", IntSort)
 			ex.assume(st.pc, Ge(nw, st.wm))
-			if ok {
-				isnil := UF(fmt.Sprintf("ext.%s.%d.nil", name, j), BoolSort, flat...)
-				ex.assume(st.pc, Eq(Eq(r, IntLit(0)), isnil))
-			}
-			ex.assume(st.pc, Or(Eq(r, IntLit(0)), And(Gt(r, st.wm), Le(r, nw))))
 			st.wm = nw
-			v.C[j] = r
+			if !ok {
+				r := Fresh("extref."+name, IntSort)
+				ex.assume(st.pc, Or(Eq(r, IntLit(0)), And(Gt(r, IntLit(0)), Le(r, nw))))
+				v.C[j] = r
+			}
 		}
 	}
 	ex.assumeTyped(st, v)
@@ -260,7 +260,7 @@ func (ex *Exec) applyContract(fr *Frame, st *State, c *FuncContract, pnames []st
 				continue
 			}
 			ex.prove(fname, st, "pre", label, g, r.Text, pos)
-			ex.assume(st.pc, g)
+			ex.assumePath(st.pc, g)
 		}
 	}
 	// post state
@@ -312,6 +312,7 @@ func (ex *Exec) havocTargets(st *State, mods []ModTarget, env *Env, fr *Frame, o
 		case mt.All:
 			ws := newWriteSet()
 			ws.setAll("modifies * of " + owner)
+			ws.except = mt.Except
 			ex.havoc(st, ws, "mod", fr)
 		case mt.Key != "":
 			srt, ok := keySortReg[mt.Key]
